@@ -97,6 +97,7 @@ def shards(tier, seed):
     # one application serves bodies above and below the limit one after the other (what one refusal leaves behind must not
     # decide the next answer)
     out.append(('sequence', 5, 4, None, tier))
+    out.append(('nospool', None, None, None, tier))
     # seed extension: another (limit, threshold) pair, enumerated just as exhaustively
     out.append(('plain', 3 + seed % 9, 2 + seed % 6, 'raw', tier))
     out.append(('plain', 3 + seed % 9, 2 + seed % 6, 'urlencoded', tier))
@@ -184,7 +185,11 @@ def serve(om, ex, L, M, ctype_header, accessor, raw, envkw, onebyte=False, via_c
             seen['value'] = rq.json
         elif accessor == 'multipart':
             seen['forms'] = dict(rq.forms)
-            seen['files'] = {k: v.file.read() for k, v in rq.files.items()}
+            # uploads are windows onto the one buffered body: a few bytes of each, a look at the raw body, then the rest of each
+            items = list(rq.files.items())
+            heads = {k: v.file.read(3) for k, v in items}
+            rq.body.read(5)
+            seen['files'] = {k: heads[k] + v.file.read() for k, v in items}
             seen['kind'] = body_kind(rq.body)
         seen['done'] = True
         return 'ok'
@@ -463,9 +468,75 @@ def work_sequence(spec):
     return res
 
 
+def nospool_case(om, n, M, framing, mp):
+    """the temporary file for bodies above the threshold cannot be created: such a body is not handed over in memory instead"""
+    bm = sut.sub('request_pkg.body_mixin')
+    real_tf = bm.TemporaryFile
+    if mp:
+        body, _ = refmp.build(b'BND', [(refmp.cd('f', 'n.bin'), b'x' * n)], epilogue=b'\r\n')
+        ctype = 'multipart/form-data; boundary=BND'
+    else:
+        body, ctype = make_payload('raw', n), CTYPE['raw']
+    app = om.Ombott({'max_memfile_size': M})
+    seen = {}
+
+    def h():
+        b = app.request.body
+        seen['kind'] = body_kind(b)
+        seen['len'] = len(b.read())
+        if mp:
+            seen['files'] = {k: len(v.file.read()) for k, v in app.request.files.items()}
+        return 'ok'
+    app.route('/p', 'POST', h)
+
+    def refuse(*a, **kw):
+        raise OSError(30, 'Read-only file system')
+    bm.TemporaryFile = refuse
+    try:
+        if framing == 'chunked':
+            c = wsgi.call(app, wsgi.environ('POST', '/p', body=refmp.chunked_encode([body[i:i + 7] for i in range(0, len(body), 7)]), chunked=True, ctype=ctype))
+        else:
+            c = wsgi.call(app, wsgi.environ('POST', '/p', body=body, ctype=ctype))
+    finally:
+        bm.TemporaryFile = real_tf
+    if len(body) > M and seen:
+        return f'the handler was given the {len(body)}-byte body as {seen["kind"]} ({seen["len"]} bytes), status {c.status}'
+    if len(body) <= M and (c.code != 200 or seen.get('len') != len(body)):
+        return f'a {len(body)}-byte body within the threshold was answered {c.status} (handler saw {seen})'
+    return None
+
+
+def work_nospool(spec):
+    res = core.new_result()
+    om = sut.load()
+    c = res['counters']
+    for M in (4, 64, 1024):
+        for n in (0, M - 1, M, M + 1, 2 * M, 50 * M):
+            for framing in ('cl', 'chunked'):
+                for mp in (False, True):
+                    if n < 0:
+                        continue
+                    case = {'kind': 'nospool', 'n': n, 'M': M, 'L': None, 'framing': framing, 'mp': mp}
+                    core.track(res, case)
+                    bad = nospool_case(om, n, M, framing, mp)
+                    res['states'] += 1
+                    res['execs'] += 1
+                    res['transitions'] += 1
+                    res['nontrivial'] += 1
+                    c['nospool_cases'] += 1
+                    res['outcomes'].add('no spool file: ' + ('ok' if bad is None else 'BAD'))
+                    if bad:
+                        core.add_violation(res, case, f'{case}: {bad}', sig='nospool')
+    core.untrack()
+    core.add_sample(res, {'kind': 'nospool', 'thresholds': [4, 64, 1024]})
+    return res
+
+
 def work(spec):
     if spec[0] == 'sequence':
         return work_sequence(spec)
+    if spec[0] == 'nospool':
+        return work_nospool(spec)
     return work_plain(spec) if spec[0] == 'plain' else work_multipart(spec)
 
 
@@ -474,6 +545,12 @@ def replay(case):
     L, M = case['L'], case['M']
     if case['kind'] == 'sequence':
         return sequence_once(om, L, M, [tuple(x) for x in case['seq']])
+    if case['kind'] == 'nospool':
+        bad = nospool_case(om, case['n'], M, case['framing'], case['mp'])
+        if bad is None:
+            return None
+        return (f'max_memfile_size={M}, the temporary file for larger bodies cannot be created (OSError); a {"multipart upload of" if case["mp"] else "raw body of"} '
+                f'{case["n"]} bytes, {case["framing"]}: {bad}')
     if case['kind'] == 'plain':
         ct, n = case['ct'], case['n']
         payload = make_payload(ct, n)
